@@ -34,7 +34,9 @@ func (c *Int) SetStepValue(value int) {
 
 // GetValue returns the value as int
 func (c *Int) GetValue() int {
-	return c.Characteristic.GetValue().(int)
+	// A characteristic which is not readable (e.g. identify) does not store a value
+	value, _ := c.Characteristic.GetValue().(int)
+	return value
 }
 
 func (c *Int) GetMinValue() int {
